@@ -771,12 +771,21 @@ func ctxIdent(ctx context.Context, o *apiObs) {
 	}
 }
 
-// withSettings returns an SPNEGOToken that carries the service settings. The settings field is unexported
-// and only AcceptSecContext attaches it, so an empty token is passed through AcceptSecContext first (it is
-// refused as defective), then the bytes are unmarshalled into it (Unmarshal copies the settings down).
+// withSettings returns an SPNEGOToken that carries the service settings. The settings field is unexported and only
+// AcceptSecContext attaches it - at a point of its own choosing, possibly only once it has decided to verify a Kerberos
+// mechanism token. So a decoy goes through AcceptSecContext first: a well-formed NegTokenInit that offers Kerberos 5 and whose
+// mechanism token is an AP-REQ token with a body that cannot be decoded (refused, but by then the settings are attached);
+// then the flags are cleared and the real bytes are unmarshalled into the same object (Unmarshal copies the settings down).
+var settingsDecoy = kmsg.SPNEGOInitDER(kmsg.NegTokenInit{MechTypes: [][]int{kmsg.OIDKRB5}, MechToken: kmsg.KRB5Token{TokID: kmsg.TokAPReq, Msg: []byte{0x6e, 0x03, 0x30, 0x01, 0x00}}.DER()})
+
 func withSettings(svc *spnego.SPNEGO, tok []byte) (*spnego.SPNEGOToken, error) {
 	st := new(spnego.SPNEGOToken)
-	svc.AcceptSecContext(st)
+	if err := st.Unmarshal(settingsDecoy); err == nil {
+		svc.AcceptSecContext(st)
+	} else {
+		svc.AcceptSecContext(st) // as a last resort the empty token, which the library at hand may or may not give the settings to
+	}
+	st.Init, st.Resp = false, false
 	if err := st.Unmarshal(tok); err != nil {
 		return nil, err
 	}
@@ -912,6 +921,12 @@ func (e *env) feedAPIs(j *job, class string, build func(variant string) (built, 
 		ck := j.key + "/" + x.api
 		r.Eval(ck, true)
 		short := strings.ReplaceAll(x.api, ".", "_")
+		if x.o.panicked && x.api != "SPNEGO.AcceptSecContext" && strings.Contains(x.o.pw, "service.(*Settings).") && vh.PanicClass(x.o.pv) == "nil" {
+			// the token object never received the service settings (there is no public way to attach them; the harness's
+			// detour through AcceptSecContext did not work with this library version): the direct call cannot be made
+			r.Inc("api_not_applicable_" + short + "_settings_not_attachable")
+			continue
+		}
 		if x.o.panicked {
 			r.Violation(fmt.Sprintf("C03|panic|%s|%s", x.o.pw, vh.PanicClass(x.o.pv)), x.api+" panicked: "+x.o.pv,
 				map[string]any{"case": ck, "api": x.api, "token": fmt.Sprintf("%x", x.tok), "header_equivalent": "Negotiate " + b64(x.tok)})
@@ -1704,7 +1719,7 @@ func TestProp(t *testing.T) {
 	r.Note("completeness (a token must be served) is asserted only for canonical framings {NegTokenInit with KRB5 first, NegTokenInit with the MS-legacy OID first, raw KRB5 token} sent as the first 'Negotiate <base64>' header while the session store does not fail; " +
 		"NegTokenResp framings, odd header spellings, mutated tokens, a valid session cookie and every other case are observe-only on the completeness side (the statement only says when the handler must NOT run)")
 	r.Note("'reports success' for a verification API means: the boolean result is true, or the status code is StatusComplete. (false, ContinueNeeded) is not success. (true, Unavailable) IS counted as success: callers of gssapi.ContextToken.Verify receive ok=true")
-	r.Note("SPNEGOToken/NegTokenInit/NegTokenResp carry the service settings in an unexported field that only AcceptSecContext attaches: the harness passes an empty SPNEGOToken through AcceptSecContext (refused) and then unmarshals the bytes into it. " +
+	r.Note("SPNEGOToken/NegTokenInit/NegTokenResp carry the service settings in an unexported field that only AcceptSecContext attaches: the harness passes a decoy (a Kerberos NegTokenInit with an undecodable AP-REQ) through AcceptSecContext (refused) and then unmarshals the bytes into the same object; a direct call that still finds no settings is counted as not applicable, not judged. " +
 		"KRB5Token has no public way to receive settings: KRB5Token.Verify is called directly only for mechanism tokens that do not hold an AP-REQ; for AP-REQ tokens it is exercised through the NegToken Verify methods. " +
 		"Calling KRB5Token.Verify on an unmarshalled AP-REQ token without settings is counted (observe_krb5token_verify_apreq_without_settings_*), not judged")
 	r.Note("not judged: pvno, msg-type and tkt-vno of the AP-REQ (not part of the acceptance conditions of the statement; the lenient extractor normalises them); status codes and messages of refusals; the identity in the context returned by the APIs (observe_api_context_identity_differs); session expiry")
